@@ -123,6 +123,8 @@ def run(ctx):
         ctx.check(P + ':trailer-v3-empty', 'R-table', 'v2/v3 signatures have an empty trailer', empty, function=b.path)
     salt_tables(ctx, P)
     hash_tables(ctx, P)
+    # which signature types a verify / sign function admits decides which frames enter the digest (shared with C02)
+    sig.s02_3_type_binding(ctx, P)
     from rules.tables import rfc_id_tables
     rfc_id_tables(ctx, P, only=r'HashAlgorithm|SignatureType|PublicKeyAlgorithm')
     # salt first + twins
